@@ -1186,3 +1186,74 @@ Proof.
   { destruct (pget K_STYLES m6); [reflexivity|]. apply pget_pset_other. exact Hs. }
   rewrite H7, H6. unfold m0. apply pget_pupdate.
 Qed.
+
+(* ------------------------------------------------------------------ combined layers: the contract of every member *)
+(* equal format lists (as lists of strings): an entry of one list has an entry with the same string in the other *)
+Lemma list_eqb_fid_in (l l' : list fmt) e :
+  list_eqb (fun x y => f_id x =? f_id y) l l' = true -> In e l -> exists e', In e' l' /\ f_id e = f_id e'.
+Proof.
+  revert l'. induction l as [|x l IH]; intros [|y l'] H Hin; try discriminate; [destruct Hin|].
+  cbn in H. apply andb_prop in H. destruct H as [Hxy H]. destruct Hin as [<-|Hin].
+  - exists y. split; [left; reflexivity|lia].
+  - destruct (IH l' H Hin) as (e' & He' & Hid). exists e'. split; [right; exact He'|exact Hid].
+Qed.
+
+(* the request of a layer that stands for several sources: its format is (or compares equal to) an entry that every
+   member lists under the same string, and it forwards only dimensions that every member is configured to forward *)
+Lemma combined_request_format_of_members T kn kd GI GC first rest q e ms r m :
+  In (e, ms) (combine_layers kn kd first rest q) ->
+  wms_get_map T kn kd GI GC e q = Request r -> w_fmts e <> [] -> In m ms ->
+  exists fe fm, In fe (w_fmts e) /\ In fm (w_fmts m) /\ f_id fe = f_id fm /\
+                (r_fmt r = fe \/ fmt_match (r_fmt r) fe = true).
+Proof.
+  intros Hin H Hne Hm. apply combine_layers_group_ok in Hin. destruct Hin as [Ha _].
+  destruct (Ha m Hm) as (_ & _ & _ & Hf).
+  destruct (request_format_supported T kn kd GI GC e q r H Hne) as (fe & Hfe & Hmatch).
+  destruct (list_eqb_fid_in _ _ fe Hf Hfe) as (fm & Hfm & Hid).
+  exists fe, fm. repeat split; assumption.
+Qed.
+
+Lemma combined_request_dims_of_members T kn kd GI GC first rest q e ms r m d :
+  In (e, ms) (combine_layers kn kd first rest q) ->
+  wms_get_map T kn kd GI GC e q = Request r -> In m ms -> In d (r_fwd r) ->
+  In d (q_dims q) /\ In (d_lower d) (w_fwd m).
+Proof.
+  intros Hin H Hm Hd. apply combine_layers_group_ok in Hin. destruct Hin as [Ha _].
+  destruct (Ha m Hm) as (_ & Hdims & _).
+  pose proof (wms_request_inv _ _ _ _ _ _ _ _ H) as (_ & _ & _ & Hfwd & _).
+  rewrite Hfwd, Hdims in Hd. apply dims_for_params_in in Hd. exact Hd.
+Qed.
+
+(* a layer that stands for several sources is not requested when the (common) coverage does not intersect *)
+Lemma combined_not_contacted_outside_member_coverage T kn kd GI GC first rest q e ms m cb cs :
+  In (e, ms) (combine_layers kn kd first rest q) -> In m ms -> w_cov m = Some (cb, cs) ->
+  exists cs', w_cov e = Some (cb, cs') /\ srs_eq cs' cs = true /\ w_geom e = w_geom m /\
+    ((forall b, to_srs T (q_srs q) cs' (q_bbox q) = Some b -> cov_intersects GI (w_geom e) cb b = false) ->
+     forall r, wms_get_map T kn kd GI GC e q <> Request r).
+Proof.
+  intros Hin Hm Hc. apply combine_layers_group_ok in Hin. destruct Hin as [Ha _].
+  destruct (Ha m Hm) as (Hcov & _). unfold cov_eqb in Hcov. rewrite Hc in Hcov.
+  destruct (w_cov e) as [[cb' cs']|] eqn:Ee; [|discriminate].
+  apply andb_prop in Hcov. destruct Hcov as [Hcov Hg]. apply andb_prop in Hcov. destruct Hcov as [Es Eb].
+  apply bbox_eqb_eq in Eb. subst cb'. exists cs'. split; [reflexivity|]. split; [exact Es|]. split.
+  - destruct (w_geom e) as [g|]; destruct (w_geom m) as [g'|]; try discriminate; [|reflexivity]. f_equal. lia.
+  - intros Hb. eapply no_request_outside_coverage; eassumption.
+Qed.
+
+Module ThreeExamples.
+  Import Examples CombinedExamples.
+  (* three sources requested together: the first two are combined, the third (same SRS, other code) stays alone *)
+  Example ex_three_groups :
+    combine_layers 1 1 pa [(true, pb); (true, pb_alias)] (qh (100, 100, 200, 200)) =
+    [(combined pa, [pa; pb]); (pb_alias, [pb_alias])].
+  Proof. vm_compute. reflexivity. Qed.
+  Example ex_three_requests :
+    render_list Tid 1 1 GIh GCh pa [(true, pb); (true, pb_alias)] (qh (100, 100, 200, 200)) =
+    [Request (mkReq (100, 100, 200, 200) 100 100 s3857 png_typed [(30, 20, 40)]);
+     Request (mkReq (100, 100, 200, 200) 100 100 s900913 png_typed [(30, 20, 40)])].
+  Proof. vm_compute. reflexivity. Qed.
+  (* all three compatible: one request *)
+  Example ex_three_one :
+    map (fun e => length (snd e)) (combine_layers 1 1 pa [(true, pb); (true, pa)] (qh (100, 100, 200, 200))) = [3%nat].
+  Proof. vm_compute. reflexivity. Qed.
+End ThreeExamples.
